@@ -42,3 +42,18 @@ Definition decode_partition_info (version offset ts log_start : Z) : Z * Z * Z :
   if version <? 2 then (offset, -1, -2)
   else if version <=? 4 then (offset, ts, -2)
   else (offset, ts, log_start).
+
+(* the loop shape shared by done / done_noack / failure:
+     for future, metadata in self._msg_futures:
+         if future.done(): continue
+         <pure bindings>
+         future.set_result(X) | future.set_exception(E)
+   [body f] is what the i-th pending future is resolved with.  The generated module gen/DoneGen.v
+   (translator/units_c02.py, from the current source) instantiates it. *)
+Fixpoint for_pending_aux (i : nat) (body : mfut -> res) (fs : list mfut) : list (nat * res) :=
+  match fs with
+  | [] => []
+  | f :: fs' => if f_done f then for_pending_aux (S i) body fs'
+                else (i, body f) :: for_pending_aux (S i) body fs'
+  end.
+Definition for_pending (body : mfut -> res) (fs : list mfut) := for_pending_aux O body fs.
